@@ -155,7 +155,7 @@ def check(plan):
                     continue
                 toks = extract(ln, out, plan["secrets"], collapse)
                 for seg, tok in (toks or []):
-                    if seg[0] == "k4" and tok != seg[1]:
+                    if seg[0] in ("k4", "rw") and tok != seg[1]:
                         V.append({"prop": "C12", "tag": "kept-token-changed",
                                   "detail": "layout %d: %r (netmask-shaped or preserved) came out as %r in %r" % (li, seg[1], tok, out[:120])})
                 if toks is None:
